@@ -899,7 +899,43 @@ void OnFatalSignal(int sig) {
   _exit(1);
 }
 
+#if defined(__SANITIZE_ADDRESS__)
+extern "C" void __asan_set_error_report_callback(void (*)(const char*));
+// AddressSanitizer found a memory error inside the library: report scenario + choices + trace + the head of its report
+void OnAsanReport(const char* report) {
+  static bool once = false;
+  if (once || gEx == nullptr) return;
+  once = true;
+  std::string head;
+  int lines = 0;
+  for (const char* c = report; *c && lines < 12 && head.size() < 1500; ++c) {
+    head += *c;
+    if (*c == '\n') {
+      head += "  ";
+      ++lines;
+    }
+  }
+  std::string first = head.substr(0, head.find('\n'));
+  auto at = first.find("ERROR: ");
+  if (at != std::string::npos) first = first.substr(at + 7);
+  auto on = first.find(" on address");
+  if (on != std::string::npos) first = first.substr(0, on);
+  auto& ctx = gEx->ctx;
+  std::string v = "violation: memory error: " + first + "\nscenario: " + gCurHeader + "\nchoices: " + ctx.ChoiceString() +
+                  "\ntrace:";
+  for (auto& l : ctx.trace) v += "\n  " + l;
+  v += "\nsanitizer report:\n  " + head;
+  gEx->violations.insert(gEx->violations.begin(), v);
+  ++gEx->stats.violations;
+  ++gEx->stats.executions;
+  gEx->Report();
+}
+#endif
+
 void InstallSignalHandlers() {
+#if defined(__SANITIZE_ADDRESS__)
+  __asan_set_error_report_callback(&OnAsanReport);
+#endif
   stack_t ss{};
   ss.ss_sp = gSigStack;
   ss.ss_size = sizeof(gSigStack);
@@ -1046,6 +1082,9 @@ int main(int argc, char** argv) {
   std::string family;
   for (int i = 1; i + 1 < argc; ++i)
     if (std::string(argv[i]) == "--family") family = argv[i + 1];
+  bool sanitizer_pass = false;
+  for (int i = 1; i < argc; ++i)
+    if (std::string(argv[i]) == "--sanitizer-pass") sanitizer_pass = true;
   int pb3 = -1;  // preemption bound for the three-input scenarios (default: one less than --pb)
   for (int i = 1; i + 1 < argc; ++i)
     if (std::string(argv[i]) == "--pb3") pb3 = std::atoi(argv[i + 1]);
@@ -1064,8 +1103,14 @@ int main(int argc, char** argv) {
     if (family == "all" && sc.kind == "any") continue;
     if (family == "any" && sc.kind != "any") continue;
     if (!opt.has_replay && opt.mode == "dfs") {
-      ex.ctx.preempt_bound = sc.n >= 3 ? (pb3 >= 0 ? pb3 : std::max(0, opt.preempt_bound - 1)) : opt.preempt_bound;
+      int b3 = pb3 >= 0 ? pb3 : std::max(0, opt.preempt_bound - 1);
+      // three shared inputs (weak-CAS registration, callback lists): one preemption less keeps the quick tier quick
+      bool shared3 = sc.n >= 3 && sc.shape.find_first_not_of('u') != std::string::npos;
+      ex.ctx.preempt_bound = sc.n >= 3 ? (shared3 ? std::max(1, b3 - 1) : b3) : opt.preempt_bound;
     }
+    // --sanitizer-pass: the reduced scenario set of the AddressSanitizer build (memory errors are invisible otherwise):
+    // everything with a shared input (callback lists, DynamicCombinator) and the iterator forms
+    if (sanitizer_pass && sc.shape.find_first_not_of('u') == std::string::npos && sc.form != "dynamic") continue;
     gCurHeader = sc.Header();
     // every execution that ends in std::terminate leaks its parked fibers (their stacks are mmap'ed and the number of
     // mappings of a process is limited).  The scenarios of the former defect D2 (tuple form, FirstFail, two failures; fixed by
